@@ -422,13 +422,41 @@ impl<'a> Canon<'a> {
         }
     }
 
+    fn core_func(&self, id: wasmparser::types::CoreTypeId) -> String {
+        match self.types.get(id).map(|t| &t.composite_type.inner) {
+            Some(wasmparser::CompositeInnerType::Func(f)) => {
+                let p: Vec<String> = f.params().iter().map(|t| t.to_string()).collect();
+                let r: Vec<String> = f.results().iter().map(|t| t.to_string()).collect();
+                format!("[{}] -> [{}]", p.join(", "), r.join(", "))
+            }
+            other => format!("<non-func core type {other:?}>"),
+        }
+    }
+
+    pub fn core_entity(&self, e: &wasmparser::types::EntityType) -> String {
+        use wasmparser::types::EntityType as E;
+        match e {
+            E::Func(id) | E::FuncExact(id) => format!("func{}", self.core_func(*id)),
+            E::Table(t) => format!(
+                "table{{{}, min={}, max={:?}, table64={}, shared={}}}",
+                t.element_type, t.initial, t.maximum, t.table64, t.shared
+            ),
+            E::Memory(m) => format!(
+                "memory{{min={}, max={:?}, memory64={}, shared={}, page_size_log2={:?}}}",
+                m.initial, m.maximum, m.memory64, m.shared, m.page_size_log2
+            ),
+            E::Global(g) => format!("global{{{}, mut={}, shared={}}}", g.content_type, g.mutable, g.shared),
+            E::Tag(id) => format!("tag{}", self.core_func(*id)),
+        }
+    }
+
     pub fn entity(&mut self, e: &ComponentEntityType) -> String {
         match e {
             ComponentEntityType::Module(m) => {
                 let t = self.types.get(*m).expect("module");
-                let mut imports: Vec<String> = t.imports.iter().map(|((m, n), e)| format!("{m}/{n}: {e:?}")).collect();
+                let mut imports: Vec<String> = t.imports.iter().map(|((m, n), e)| format!("{m}/{n}: {}", self.core_entity(e))).collect();
                 imports.sort();
-                let mut exports: Vec<String> = t.exports.iter().map(|(n, e)| format!("{n}: {e:?}")).collect();
+                let mut exports: Vec<String> = t.exports.iter().map(|(n, e)| format!("{n}: {}", self.core_entity(e))).collect();
                 exports.sort();
                 format!("module{{imports{{{}}}; exports{{{}}}}}", imports.join("; "), exports.join("; "))
             }
